@@ -58,6 +58,27 @@ def near_misses(r, text):
     return [o for o in out if text not in o]
 
 
+def found_text(pat, line):
+    """what bumpver's own line matcher (parse.iter_matches, used by grep and update) reports for one line"""
+    from bumpver import parse
+    ms = list(parse.iter_matches([line], [pat]))
+    return ms[0].match if ms else None
+
+
+def placements(full, al, ar):
+    """lines that contain the text: in the middle, at the very end, at the very start of the line"""
+    out = [("" if al else "pre ") + full + ("" if ar else " post")]
+    if not ar:
+        out.append(("" if al else "pre ") + full)
+    if not al:
+        out.append(full + ("" if ar else " post"))
+    return list(dict.fromkeys(out))
+
+
+def case_flips(text):
+    return [t for t in (text.upper(), text.title(), text.swapcase()) if t != text and text not in t]
+
+
 def check_literal(rep, impl, r, lit, wrap=None):
     """wrap = (prefix part pattern, rendered prefix, suffix part pattern, rendered suffix) to test literals around real parts"""
     from bumpver import v2patterns
@@ -68,7 +89,8 @@ def check_literal(rep, impl, r, lit, wrap=None):
         al = ar = False
     inp = dict(pattern=pat, literal=lit)
     try:
-        rx = v2patterns.compile_pattern(pat).regexp
+        pobj = v2patterns.compile_pattern(pat)
+        rx = pobj.regexp
     except Exception as ex:
         rep.violation("pattern with literal text does not compile: %r" % ex, input=inp, **{"class": kc or "compile-error"})
         return None
@@ -83,31 +105,79 @@ def check_literal(rep, impl, r, lit, wrap=None):
         if bad:
             rep.violation("compiled regex contains non-literal nodes %s" % sorted(set(bad)), input=dict(inp, regex=rx.pattern), **{"class": kc or "non-literal-node"})
             return rx
+        if rx.flags & (re.IGNORECASE | re.VERBOSE | re.DOTALL | re.MULTILINE):
+            rep.violation("compiled regex carries flags that change what literal text means: %s" % re.RegexFlag(rx.flags), input=dict(inp, regex=rx.pattern), **{"class": kc or "regex-flags"})
+            return rx
     full = text if wrap is None else wrap[1] + text + wrap[3]
-    hay = ("" if al else "pre ") + full + ("" if ar else " post")
-    m = rx.search(hay)
     if not text and wrap is None:
         return rx
-    if m is None or m.group(0) != full:
-        rep.violation("pattern does not find its own literal text", input=dict(inp, line=hay, found=m.group(0) if m else None), **{"class": kc or "self-not-found"})
-        return rx
-    for miss in near_misses(r, text):
+    for hay in placements(full, al, ar):
+        got = found_text(pobj, hay)
+        if got != full:
+            rep.violation("pattern does not find its own literal text", input=dict(inp, line=hay, found=got), **{"class": kc or "self-not-found"})
+            return rx
+    for miss in near_misses(r, text) + case_flips(text):
         line = "pre " + (miss if wrap is None else wrap[1] + miss + wrap[3]) + " post"
         if full in line:
             continue
-        m = rx.search(line)
-        if m is not None and len(m.group(0)) > 0:
-            rep.violation("pattern matches a line that does not contain its literal text", input=dict(inp, line=line, found=m.group(0)), **{"class": kc or "matches-other-text"})
+        got = found_text(pobj, line)
+        if got:
+            rep.violation("pattern matches a line that does not contain its literal text", input=dict(inp, line=line, found=got), **{"class": kc or "matches-other-text"})
             return rx
     return rx
+
+
+def known_class_v1(lit):
+    if "^" in lit[1:]:
+        return "caret-not-leading"
+    if "$" in lit[:-1]:
+        return "dollar-not-trailing"
+    return None
+
+
+def check_literal_v1(rep, r, lit, wrap=False):
+    """the legacy engine escapes every character of the shared table (brackets and backslash included): the text is the pattern itself"""
+    from bumpver import v1patterns
+    kc = known_class_v1(lit)
+    al, ar = lit.startswith("^"), lit.endswith("$")
+    text = lit[1 if al else 0: len(lit) - 1 if ar else len(lit)]
+    pat = lit if not wrap else "{year}" + lit + "{build_no}"
+    if wrap:
+        al = ar = False
+        text = lit
+    inp = dict(engine="v1", pattern=pat, literal=lit)
+    try:
+        pobj = v1patterns.compile_pattern("{pycalver}", pat)
+    except Exception as ex:
+        rep.violation("legacy pattern with literal text does not compile: %r" % ex, input=inp, **{"class": kc or "compile-error"})
+        return
+    if pobj.regexp.flags & (re.IGNORECASE | re.VERBOSE | re.DOTALL | re.MULTILINE):
+        rep.violation("compiled legacy regex carries flags that change what literal text means: %s" % re.RegexFlag(pobj.regexp.flags), input=inp, **{"class": kc or "regex-flags"})
+        return
+    if not text:
+        return
+    full = text if not wrap else "2024" + text + "1001"
+    for hay in placements(full, al, ar):
+        got = found_text(pobj, hay)
+        if got != full:
+            rep.violation("legacy pattern does not find its own literal text", input=dict(inp, line=hay, found=got), **{"class": kc or "self-not-found"})
+            return
+    for miss in near_misses(r, text) + case_flips(text):
+        line = "pre " + (miss if not wrap else "2024" + miss + "1001") + " post"
+        if full in line:
+            continue
+        got = found_text(pobj, line)
+        if got:
+            rep.violation("legacy pattern matches a line that does not contain its literal text", input=dict(inp, line=line, found=got), **{"class": kc or "matches-other-text"})
+            return
 
 
 def run(rep, tier, seed, model_ok=True, effort=1):
     from . import impl
     r = common.rng(seed, "c07")
     rep.rule = ("literals over printable ASCII without upper case (brackets only as \\[ \\]): exhaustive up to length %d, seeded random up to length 40, "
-                "alone and wrapped around real parts; each compiled, inspected with CPython's regex parser (only LITERAL/AT nodes), searched in lines "
-                "containing the text and in near-miss lines; compiled regex text and search spans compared with the Coq model; a sample through `bumpver grep`; "
+                "alone and wrapped around real parts, for the v2 and the legacy engine; each compiled, inspected with CPython's regex parser (only LITERAL/AT nodes, no flags), searched through bumpver's line matcher (parse.iter_matches) in lines that carry the text in the middle / at the end / at the start, in lines with the text in another letter case, "
+                "and in near-miss lines; compiled regex text and search spans compared with the Coq model; a sample through `bumpver grep`; "
                 "non-trivial = distinct literal containing at least one regex metacharacter" % (2 if tier == "quick" else 3))
     maxlen = 2 if tier == "quick" else 3
     lits = [""]
@@ -141,6 +211,19 @@ def run(rep, tier, seed, model_ok=True, effort=1):
                 span = "(Some (%d%%nat,%d%%nat))" % m.span() if m and m.group(0) else "None"
                 search_items.append("(%s,%s,%s)" % (cs(lit), cs(line), span))
                 search_meta.append((lit, line))
+    # the legacy engine: the same literals (without braces, which are its part syntax), alone and between two legacy parts
+    n_v1 = 0
+    for lit in lits:
+        if "{" in lit or "}" in lit or not lit:
+            continue
+        if len(lit) > 2 and r.random() < 0.5:
+            continue
+        check_literal_v1(rep, r, lit)
+        rep.case(("v1", lit), nontrivial=any(c in META for c in lit))
+        if not (lit[:1].isdigit() or lit[-1:].isdigit()) and lit[:1] != "^" and lit[-1:] != "$" and r.random() < 0.2:
+            check_literal_v1(rep, r, lit, wrap=True)
+        n_v1 += 1
+    rep.count("legacy-engine-literals", n_v1)
     # literals wrapped around real parts
     wraps = [("vMAJOR", "v12", "MINOR", "34"), ("YYYY", "2024", "0M", "09"), ("BUILD", "1001", "TAG", "beta"), ("", "", "MAJOR.MINOR", "1.2"), ("PATCH", "7", "", "")]
     for _ in range((300 if tier == "quick" else 4000) * effort):
